@@ -455,6 +455,9 @@ def gen_plan(seed, tier):
         plan['cost2'] = gen.gen_cost(rng, dim, ['quad', 'rosen', 'abs', 'flat', 'tied'])
         plan['x02'] = gen.gen_x0(rng, dim)
         plan['order'] = [rng.randrange(2) for _ in range(2 * plan['limits'][0])]
+    r5 = sub_rng(seed, 'plan.c11.late')
+    if plan['mode'] in ('solve', 'manual', 'manual_collapsed') and r5.random() < 0.2:
+        plan['late'] = r5.randint(2, 12); plan['save'] = False
     plan['seed'] = seed
     return plan
 
@@ -954,9 +957,20 @@ def run_plan(plan):
                             if not out or rounds >= plan['max_rounds']: break
                         elif msg: break
                 else:
+                    late = plan.get('late')
+                    if late:
+                        # the collapse conditions are installed between two Steps of a run that is under way: the next Step's
+                        # check BEFORE stepping finds the collapse (the solver is live, nothing has been finalized)
+                        s.SetTermination(build_cond({'t': 'VTR', 'kw': {'tolerance': -1.0, 'target': 0.0}}))
+                        s.SetEvaluationLimits(plan['limits'][0], plan['limits'][1])
+                        orc.wrap(h)
+                        for i in range(late):
+                            r = h.do({'op': 'step', 'n': 1})
+                            if r.get('exc') or (r.get('ret') or (None,))[-1]: break
+                        run.probe('c11.termination_installed_midrun')
                     s.SetTermination(build_cond(plan['tree']))
                     s.SetEvaluationLimits(plan['limits'][0], plan['limits'][1])
-                    orc.wrap(h)
+                    if not late: orc.wrap(h)
                     if plan.get('save'):
                         s.SetSaveFrequency(1, run.fs.path('c11-restart.pkl'))
                     if plan['mode'] == 'shared':
